@@ -452,7 +452,8 @@ def addPre (pre : List Nat) (p : Nat) : List Nat := if pre.contains p then pre e
     including `p`): none unless a commitment transaction is confirmed (the early `return`).
     Counterparty commitment: the outputs needing exactly this preimage, dated by the generated
     `preimageSpendHeight`; holder commitment: every output whose preimage is known, dated by the
-    generated `holderPreimageOutpointHeight`. -/
+    generated `holderPreimageOutpointHeight` of that same spend height
+    (`confirmed_spend_height.unwrap_or(best)` since repo commit 0461f57; before it: `best`). -/
 def preimageRequests (K : ClaimCat) (st : St) (pre' : List Nat) (p : Nat) : List (Nat × Option Nat) :=
   match fundingSpend st with
   | none => []
@@ -463,7 +464,7 @@ def preimageRequests (K : ClaimCat) (st : St) (pre' : List Nat) (p : Nat) : List
       K.outs.filterMap (fun oi =>
         if oi.2.parent == txid then
           if oi.2.holder then
-            (if preKnown pre' oi.2.needs then some (oi.1, holderStoredHeight (holderPreimageOutpointHeight st.best)) else none)
+            (if preKnown pre' oi.2.needs then some (oi.1, holderStoredHeight (holderPreimageOutpointHeight spendHeight st.best)) else none)
           else (if oi.2.needs == some p then some (oi.1, spendHeight) else none)
         else none)
 
